@@ -28,13 +28,52 @@ theorem Five_or_bits (a b c d e : Nat) : Src.Five.or_bits [a, b, c, d, e] = some
 theorem Five_or_rank_bits (a b c d e : Nat) :
     Src.Five.or_rank_bits [a, b, c, d, e] = some (orRankBits [a, b, c, d, e]) := rfl
 theorem Five_is_flush (a b c d e : Nat) : Src.Five.is_flush [a, b, c, d, e] = some (isFlush [a, b, c, d, e]) := rfl
+theorem and63 (x : Nat) : x &&& Src.CardNumber.RANK_PRIME_FILTER ≤ 63 := Nat.and_le_right
+theorem mul_ok {w a b : Nat} (h : a * b < 2 ^ w) : Src.mul w a b = some (a * b) := by simp [Src.mul, h]
+theorem add_ok {w a b : Nat} (h : a + b < 2 ^ w) : Src.add w a b = some (a + b) := by simp [Src.add, h]
+
+/-- the four `u32` multiplications never overflow (each factor is at most 63) -/
 theorem Five_multiply_primes (a b c d e : Nat) :
-    Src.Five.multiply_primes [a, b, c, d, e] = some (multiplyPrimes [a, b, c, d, e]) := rfl
+    Src.Five.multiply_primes [a, b, c, d, e] = some (multiplyPrimes [a, b, c, d, e]) := by
+  have ha := and63 a; have hb := and63 b; have hc := and63 c; have hd := and63 d; have he := and63 e
+  have h2 : (a &&& Src.CardNumber.RANK_PRIME_FILTER) * (b &&& Src.CardNumber.RANK_PRIME_FILTER) ≤ 63 * 63 := Nat.mul_le_mul ha hb
+  have h3 := Nat.mul_le_mul h2 hc
+  have h4 := Nat.mul_le_mul h3 hd
+  have h5 := Nat.mul_le_mul h4 he
+  simp only [Src.Five.multiply_primes, Src.Five.first, Src.Five.second, Src.Five.third, Src.Five.forth, Src.Five.fifth,
+    Src.u32.get_rank_prime, Src.u32.as_u32, Option.bind, List.getD_cons_zero, List.getD_cons_succ]
+  rw [mul_ok (by omega)]; simp only
+  rw [mul_ok (by omega)]; simp only
+  rw [mul_ok (by omega)]; simp only
+  rw [mul_ok (by omega)]
+  rfl
+theorem tzGo_le : ∀ (f x acc : Nat), tzGo f x acc ≤ f + acc := by
+  intro f
+  induction f with
+  | zero => intro x acc; simp [tzGo]
+  | succ n ih =>
+    intro x acc
+    unfold tzGo
+    split
+    · omega
+    · have := ih (x / 2) (acc + 1); omega
+theorem tz32_le (x : Nat) : tz32 x ≤ 32 := by
+  unfold tz32; split
+  · omega
+  · have := tzGo_le 32 x 0; omega
+theorem lz32_le (x : Nat) : lz32 x ≤ 32 := by
+  unfold lz32; split <;> omega
+
 theorem c_STRAIGHT_PADDING : Src.Five.STRAIGHT_PADDING = Gen.straightPadding := by decide
 theorem c_WHEEL_OR_BITS : Src.Five.WHEEL_OR_BITS = Gen.wheelOrBits := by decide
 theorem Five_is_straight (a b c d e : Nat) :
     Src.Five.is_straight [a, b, c, d, e] = some (isStraight [a, b, c, d, e]) := by
+  have hb : tz32 (orRankBits [a, b, c, d, e]) + lz32 (orRankBits [a, b, c, d, e]) < 2 ^ 32 := by
+    have := tz32_le (orRankBits [a, b, c, d, e]); have := lz32_le (orRankBits [a, b, c, d, e]); omega
   simp only [Src.Five.is_straight, Five_or_rank_bits, Option.bind, isStraight, c_STRAIGHT_PADDING, c_WHEEL_OR_BITS]
+  cases h5 : (pc 32 (orRankBits [a, b, c, d, e]) == 5)
+  · simp
+  · simp only [if_true, add_ok hb, Bool.true_and]
 theorem Five_is_wheel (a b c d e : Nat) : Src.Five.is_wheel [a, b, c, d, e] = some (isWheel [a, b, c, d, e]) := rfl
 theorem Five_is_straight_flush (a b c d e : Nat) :
     Src.Five.is_straight_flush [a, b, c, d, e] = some (isStraightFlush [a, b, c, d, e]) := by
@@ -46,43 +85,50 @@ end Tie
 namespace Tie
 open CK
 
-/-- the translated `while` loop of `find_in_products`, followed by the code after it, is `findGo` -/
-theorem find_loop (key : Nat) : ∀ (fuel low high : Nat),
+/-- the translated `while` loop of `find_in_products`, followed by the code after it, is `findGo`; the two additions
+    (`high + low`, `mid + 1`) stay far below the integer width because both bounds stay below 4,889 -/
+theorem find_loop (key : Nat) : ∀ (fuel low high : Nat), low ≤ 4888 → high ≤ 4887 →
     Option.bind (Src.whileFuel (ρ := Nat) fuel (high, low) fun (high, low) =>
       if (decide (low ≤ high)) then
-        let mid := ((high + low) >>> 1)
-        Option.bind (CK.packed.products mid) fun t1_ =>
-        let product := t1_
+        Option.bind (Src.add 31 high low) fun t1_ =>
+        let mid := (t1_ >>> 1)
+        Option.bind (CK.packed.products mid) fun t2_ =>
+        let product := t2_
         if (decide (key < product)) then
           if (mid == 0) then
             some (Src.Ctl.brk (high, low))
           else
-            Option.bind (Src.sub mid 1) fun t2_ =>
-            let high := t2_
+            Option.bind (Src.sub mid 1) fun t3_ =>
+            let high := t3_
             some (Src.Ctl.next (high, low))
         else
           if (decide (key > product)) then
-            let low := (mid + 1)
+            Option.bind (Src.add 31 mid 1) fun t4_ =>
+            let low := t4_
             some (Src.Ctl.next (high, low))
           else
             some (Src.Ctl.ret mid)
-      else some (Src.Ctl.brk (high, low))) (fun r3_ =>
-      match r3_ with
-      | Src.Out.ret v4_ => some v4_
+      else some (Src.Ctl.brk (high, low))) (fun r5_ =>
+      match r5_ with
+      | Src.Out.ret v6_ => some v6_
       | Src.Out.done (high, low) => some 0)
     = findGo packed key fuel low high := by
   intro fuel
   induction fuel with
-  | zero => intro low high; rfl
+  | zero => intro low high _ _; rfl
   | succ n ih =>
-    intro low high
+    intro low high hl hh
     unfold Src.whileFuel findGo
     by_cases h : low ≤ high
-    · simp only [h, decide_true, if_true]
+    · have hsum : high + low < 2 ^ 31 := by omega
+      have hmid : (high + low) >>> 1 ≤ 4887 := by
+        rw [Nat.shiftRight_eq_div_pow]; omega
+      have hmid1 : (high + low) >>> 1 + 1 < 2 ^ 31 := by omega
+      simp only [h, decide_true, if_true, add_ok hsum, Option.bind]
       cases hp : packed.products ((high + low) >>> 1) with
-      | none => simp [Option.bind]
+      | none => simp
       | some product =>
-        simp only [Option.bind]
+        simp only
         by_cases h1 : key < product
         · simp only [h1, decide_true, if_true]
           by_cases h2 : (high + low) >>> 1 = 0
@@ -90,18 +136,18 @@ theorem find_loop (key : Nat) : ∀ (fuel low high : Nat),
           · have h3 : ((high + low) >>> 1 == 0) = false := by simp [h2]
             have h4 : 1 ≤ (high + low) >>> 1 := by omega
             simp only [h3, Src.sub, h4, if_true, Bool.false_eq_true, if_false, h2]
-            exact ih low ((high + low) >>> 1 - 1)
+            exact ih low ((high + low) >>> 1 - 1) hl (by omega)
         · simp only [h1, decide_false, Bool.false_eq_true, if_false]
           by_cases h5 : key > product
-          · simp only [h5, decide_true, if_true]
-            exact ih ((high + low) >>> 1 + 1) high
+          · simp only [h5, decide_true, if_true, add_ok hmid1]
+            exact ih ((high + low) >>> 1 + 1) high (by omega) hh
           · simp [h5]
     · simp [h]
 
 theorem Five_find_in_products (fuel key : Nat) :
     Src.Five.find_in_products fuel key = findGo packed key fuel 0 4887 := by
   unfold Src.Five.find_in_products
-  exact find_loop key fuel 0 4887
+  exact find_loop key fuel 0 4887 (by omega) (by omega)
 
 theorem Five_find_in_products_14 (key : Nat) : Src.Five.find_in_products 14 key = findInProducts packed key :=
   Five_find_in_products 14 key
@@ -185,7 +231,13 @@ end Tie
 #print axioms Tie.Five_or_bits
 #print axioms Tie.Five_or_rank_bits
 #print axioms Tie.Five_is_flush
+#print axioms Tie.and63
+#print axioms Tie.mul_ok
+#print axioms Tie.add_ok
 #print axioms Tie.Five_multiply_primes
+#print axioms Tie.tzGo_le
+#print axioms Tie.tz32_le
+#print axioms Tie.lz32_le
 #print axioms Tie.c_STRAIGHT_PADDING
 #print axioms Tie.c_WHEEL_OR_BITS
 #print axioms Tie.Five_is_straight
